@@ -23,17 +23,24 @@ def run():
         print("SANY: %d modules parsed, %d failed %s" % (len(mods), len(bad), bad))
         if bad:
             rc = 1
-        pkgs = []
-        for root, _d, files in os.walk(vlib.HARNESS):
-            rel = os.path.relpath(root, vlib.HARNESS)
-            if rel != "." and not rel.startswith("verifx") and any(f.endswith(".go") for f in files):
-                pkgs.append(rel)
-        if pkgs:
-            r, out = ctx.go_build_all(sorted(pkgs))
-            print("go harness build: rc=%d (%d packages)" % (r, len(pkgs)))
-            if r != 0:
-                print(out[-4000:])
-                rc = 1
+        ctx.cleanup()
+        props = sorted({m.group(0).upper() for root, _d, files in os.walk(vlib.HARNESS) for f in files
+                        for m in [__import__("re").match(r"^c\d\d", f)] if m})
+        for pid in props:
+            c = vlib.Ctx(pid, "quick", 1)
+            try:
+                pkgs = []
+                for root, _d, files in os.walk(vlib.HARNESS):
+                    rel = os.path.relpath(root, vlib.HARNESS)
+                    if rel != "." and not rel.startswith("verifx") and any(f.startswith(pid.lower() + "_") and f.endswith(".go") for f in files):
+                        pkgs.append(rel)
+                r, out = c.go_build_all(sorted(pkgs))
+                print("go harness build %s: rc=%d (%d packages)" % (pid, r, len(pkgs)))
+                if r != 0:
+                    print(out[-4000:])
+                    rc = 1
+            finally:
+                c.cleanup()
     finally:
         ctx.cleanup()
     return rc
